@@ -174,3 +174,4 @@ def run (M : Nat) (s : Sys) : List Choice → Option Sys
     | some s' => run M s' cs
 
 end Model.Pipeline
+
